@@ -107,6 +107,23 @@ static void run(const Red& rd, uint64_t seed, long case0, long ncases, int npoin
     // 2 select(simple), re-init(rich), configure, select(simple) | 3 both re-initialised, rich configured first
     int variant = r.below(4);
     LOG.count("history_variant_" + std::to_string(variant), 1);
+    // one case in twelve: so many redundant writes before the configuration that the number of parameter writes since the handle's
+    // last evaluation is exactly 2^16 (a modification counter of 16 bits would be back where it was)
+    if (have_prev && r.below(12) == 0 && (variant == 0 || variant == 1)) {
+      long shared_n = 0; for (auto& n : sn) if (rset.count(n)) shared_n++;
+      long total = 65536 - ((long)rn.size() + shared_n + (long)rd.zero.size());
+      CAP.begin(); masa_select_mms<S>("rich"); CAP.end();
+      S cur = masa_get_param<S>(rn[0]);
+      for (long k = 0; k < total; k++) masa_set_param<S>(rn[0], cur);
+      LOG.count("write_storms", 1);
+    }
+    if (have_prev && r.below(12) == 0 && (variant == 0 || variant == 2)) {
+      long total = 65536 - (long)sn.size();
+      CAP.begin(); masa_select_mms<S>("simple"); CAP.end();
+      S cur = masa_get_param<S>(sn[0]);
+      for (long k = 0; k < total; k++) masa_set_param<S>(sn[0], cur);
+      LOG.count("write_storms", 1);
+    }
     switch (variant) {
       case 0: sel("simple", rd.simple); if (!wrong) cfg_simple(); sel("rich", rd.rich); if (!wrong) cfg_rich(); break;
       case 1: sel("rich", rd.rich); ini("simple", rd.simple); if (!wrong) cfg_simple(); sel("rich", rd.rich); if (!wrong) cfg_rich(); break;
